@@ -531,7 +531,10 @@ def r18_slice_pattern(text):
     """match E { [b] => A, _ => B, }   ->   { let vt_s = E; if vt_s.len() == 1 { let b = &vt_s[0]; A } else { B } }
     (desugaring of the one-element slice pattern; Verus has no slice patterns)"""
     pat = re.compile(r'match ([^\n{]+?) \{\s*\[(%s)\] => ([^\n]+),\s*_ => ([^\n]+),\s*\}' % IDENT)
-    return pat.subn(lambda m: '{ let vt_s = %s; if vt_s.len() == 1 { let %s = &vt_s[0]; %s } else { %s } }' % m.groups(), text)
+    text, n = pat.subn(lambda m: '{ let vt_s = %s; if vt_s.len() == 1 { let %s = &vt_s[0]; %s } else { %s } }' % m.groups(), text)
+    # `if let [b] = E {`  ->  `if let Some(b) = vt_single(E) {`   (vt_single: Some(&s[0]) iff the slice has exactly one element)
+    text, k = re.subn(r'if let \[(%s)\] = ([^\n{]+?) \{' % IDENT, r'if let Some(\1) = vt_single(\2) {', text)
+    return text, n + k
 
 
 @rule('R15_for')
